@@ -19,6 +19,9 @@ import collections
 VERIF = os.path.dirname(os.path.dirname(os.path.abspath(__file__)))
 
 META = {
+    'F34': 'linked design-variable nodes that do not always exist together: the variable belongs to the first node of the link; '
+           'when that node is absent the other (existing) node never receives a value '
+           '(e.g. C0: a->[o1,o2]; D1 under o2, D2 under a, LINKED(D1,D2): for C0=o1 the instance contains D2 without a value)',
     'F27': 'lazy (on-demand) connection encoders and the assigning/partitioning pattern encoders declare design variables of which '
            'only one value is ever used (they do not enumerate the matrices), e.g. LazyDirectMatrixEncoder on src=[1], tgt=[1]: '
            'one variable with 2 options, only value 1 decodes to the single valid matrix',
@@ -63,6 +66,8 @@ def classify(prop, v):
     if prop == 'C10' and v.get('kind') == 'variable-with-less-than-two-used-values':
         return 'F27'
     spec = case.get('spec') if isinstance(case, dict) else None
+    if prop == 'C16' and v.get('kind') == 'existing-linked-node-without-value':
+        return 'F34'
     enc = case.get('enc') if isinstance(case, dict) else None
     if spec is None:
         return None
